@@ -1762,3 +1762,8 @@ for _pid in ("C09", "C10"):
       rule="RULES.rule_4", what="the first k with any candidate h answers for all k")
     V("%s-rule4-loop-over-k" % _pid.lower(), _pid, "undecided", UT, _R4_OLD, "    adj_j = adj(j, A)\n    for k in pa_j & n_i:\n        Hs = n_i & pa(k, A)\n        if not Hs <= adj_j:\n            return True\n    return False\n",
       what="the same rule as a loop over k with a set test per k: correct, another form")
+
+# ------------------------------------------------------------------------------- round 11 inspired (C07 / C10: the reference chain is shared)
+for _pid in ("C07", "C10"):
+    V("%s-chain-reference-memoised" % _pid.lower(), _pid, "fire", UT, "from functools import reduce\n", "from functools import reduce, lru_cache\n", more=[(UT, "def chain_graph(p):", "@lru_cache(maxsize=None)\ndef chain_graph(p):")],
+      rule="CHAIN.test.reference", what="a caller that edits chain_graph(p)'s result edits the reference is_chain_graph compares with")
